@@ -25,3 +25,7 @@ CHECKS["C02"] = dict(
     text="Result coordinates: for the C01 shape x template shards plus keyword templates (has_child, max/min, unique/distinct, parent) and a pool of keys holding every escapable character, every non-virtual result of the real Processor.get_nodes must satisfy parent[parentref] is node, an ancestry chain that walks from the document root to the parent, and a reported path that - re-queried on the same document in dot and in slash notation - resolves to exactly that node once. Oracle = the document itself.",
     note="Virtual results (slices, collectors, name()) are skipped as the property says; anchored nodes are not reachable symbolically (C-constructed scalars) and are covered by C07's pooled shards.")
 del NA["C02"]
+CHECKS["C09"] = dict(
+    text="Read purity and exact creation: (a) a deep snapshot (structure, values, key order, container identities) taken around get_nodes(mustexist=True), exists() and optional-match on an existing path must be unchanged, for C01 templates and collector expressions with +, -, & over symbolic leaves; (b) set_value / optional-match on straight key/index paths with a missing tail (depth 1-3, symbolic index and value) must produce exactly the model document: missing tail added, lists padded to exactly the requested index, every pre-existing node unchanged.",
+    note="Pad slot values are not asserted. The supplied value ranges over [-1,1] because the implementation wraps it in a C-constructed ruamel scalar (finite realisation).")
+del NA["C09"]
